@@ -21,14 +21,20 @@
 (* node ends its wait; a forwarder that fails drops the frame silently.       *)
 (* Abstractions: a node handles one frame at a time (its own transmissions    *)
 (* included), time is abstracted into the fate of each transmission and into  *)
-(* the enabling condition of Timeout (FreeTimeout), single-frame messages.    *)
-(* The TX/TX stand-off of fragment streams is the subject of NetStandoff.tla.  *)
+(* the enabling condition of Timeout (FreeTimeout).  Messages longer than     *)
+(* FragLen travel as fragments (types 148/149/150, countdown in `rsv`): the    *)
+(* origin streams them, every router treats each as a frame of an acknowledged *)
+(* type (it owes a NETWORK_ACK per fragment it delivers), the destination      *)
+(* re-assembles as FrameQueueFrag does.  The TX/TX stand-off this design makes *)
+(* possible in real time is the subject of NetStandoff.tla.                    *)
 EXTENDS NetAddr
 
 CONSTANTS Tree,        \* node addresses, closed under Parent
           Relays,      \* nodes with multicast_relay on
           NoMc,        \* nodes with allow_multicast off
           Types,       \* message types the application uses
+          Lens,        \* message lengths the application uses (model checking)
+          FragLen,     \* bytes per frame (24 on the air; 1 in model checking)
           MaxWrites, MaxLoss,
           Concurrent,  \* FALSE: a new call only starts at quiescence (the C05 quantifier)
           FreeTimeout, \* TRUE: the NETWORK_ACK wait may give up at any moment (arbitrary latencies)
@@ -36,19 +42,31 @@ CONSTANTS Tree,        \* node addresses, closed under Parent
 
 NETWORK_ACK == 193
 MCAST       == 64
+FIRST == 148
+MORE  == 149
+LAST  == 150
+IsFragT(t)  == t \in {FIRST, MORE, LAST}
 IsAckT(t)   == t > 64 /\ t < 192
 NoFrame     == [src |-> -1]
 NoTx        == [role |-> "none"]
 FIFO        == 3
 MAXQ        == 6
 
-VARIABLES rx, q, tx, wait, res, call,        \* algorithm state
-          nw, loss, acks, deliv, rets, popped, mlvl \* history (hidden behind the VIEW in model checking)
-avars == <<rx, q, tx, wait, res, call>>
-hvars == <<nw, loss, acks, deliv, rets, popped, mlvl>>
+VARIABLES rx, q, tx, wait, res, call, cache,              \* algorithm state
+          nw, loss, acks, deliv, rets, popped, mlvl, heard \* history
+avars == <<rx, q, tx, wait, res, call, cache>>
+hvars == <<nw, loss, acks, deliv, rets, popped, mlvl, heard>>
 vars  == <<avars, hvars>>
 
-Ack(f)      == [src |-> f.src, dst |-> f.src, typ |-> NETWORK_ACK, id |-> f.id, msg |-> f.msg]   \* (the code sends the message along)
+\* a message (and a single frame) is [src, dst, typ, rsv, id, msg]; msg is a sequence
+NFrags(m)   == IF Len(m.msg) <= FragLen THEN 1 ELSE (Len(m.msg) + FragLen - 1) \div FragLen
+Frame(m, k) == LET n == NFrags(m) IN
+               IF n = 1 THEN m
+               ELSE [m EXCEPT !.typ = IF k = n THEN LAST ELSE IF k = 1 THEN FIRST ELSE MORE,
+                              !.rsv = IF k = n THEN m.typ ELSE n - k + 1,
+                              !.msg = SubSeq(m.msg, (k - 1) * FragLen + 1, IF k = n THEN Len(m.msg) ELSE k * FragLen)]
+Frames(m)   == [k \in 1..NFrags(m) |-> Frame(m, k)]
+Ack(f)      == [f EXCEPT !.dst = f.src, !.typ = NETWORK_ACK]      \* (the code sends reserved byte and message along)
 Key(f)      == <<f.src, f.id, f.typ>>
 IsDup(s, f) == \E i \in 1..Len(s) : Key(s[i]) = Key(f)
 Enq(s, f)   == IF IsDup(s, f) \/ Len(s) >= MAXQ THEN s ELSE Append(s, f)
@@ -59,27 +77,30 @@ Quiescent   == \A n \in Tree : tx[n] = NoTx /\ rx[n] = <<>> /\ wait[n] = NoFrame
 Init ==
   /\ rx = [n \in Tree |-> <<>>] /\ q = [n \in Tree |-> <<>>]
   /\ tx = [n \in Tree |-> NoTx] /\ wait = [n \in Tree |-> NoFrame]
-  /\ res = [n \in Tree |-> "none"] /\ call = [n \in Tree |-> NoFrame]
+  /\ res = [n \in Tree |-> "none"] /\ call = [n \in Tree |-> NoFrame] /\ cache = [n \in Tree |-> NoFrame]
   /\ nw = 0 /\ loss = 0 /\ acks = <<>> /\ deliv = <<>> /\ rets = {} /\ popped = [n \in Tree |-> FALSE] /\ mlvl = {}
+  /\ heard = {}
 
 \* ---- application calls --------------------------------------------------------------------------------
-Write(n, f) ==
-  /\ Idle(n) /\ res[n] = "none" /\ f.src = n /\ f.dst \in Tree
-  /\ call' = [call EXCEPT ![n] = f] /\ nw' = nw + 1 /\ popped' = [popped EXCEPT ![n] = FALSE] /\ mlvl' = mlvl
-  /\ IF f.dst = n                                     \* loop-back: straight into the node's own queue
-     THEN /\ q' = [q EXCEPT ![n] = Enq(q[n], f)]
+Write(n, m) ==
+  /\ Idle(n) /\ res[n] = "none" /\ m.src = n /\ m.dst \in Tree
+  /\ call' = [call EXCEPT ![n] = m] /\ nw' = nw + 1 /\ popped' = [popped EXCEPT ![n] = FALSE] /\ mlvl' = mlvl
+  /\ heard' = heard
+  /\ IF m.dst = n                                     \* loop-back: the whole message straight into the node's own queue
+     THEN /\ q' = [q EXCEPT ![n] = Enq(q[n], m)]
           /\ res' = [res EXCEPT ![n] = IF q'[n] # q[n] THEN "T" ELSE "F"]
-          /\ deliv' = IF q'[n] # q[n] THEN Append(deliv, <<n, f>>) ELSE deliv
-          /\ UNCHANGED <<rx, tx, wait, loss, acks, rets>>
-     ELSE /\ tx' = [tx EXCEPT ![n] = [role |-> "origin", f |-> f, hop |-> NextHop(n, f.dst), got |-> {}]]
-          /\ UNCHANGED <<rx, q, wait, res, loss, acks, deliv, rets>>
+          /\ deliv' = IF q'[n] # q[n] THEN Append(deliv, <<n, m>>) ELSE deliv
+          /\ UNCHANGED <<rx, tx, wait, cache, loss, acks, rets>>
+     ELSE /\ tx' = [tx EXCEPT ![n] = [role |-> "origin", f |-> Frame(m, 1), rest |-> Tail(Frames(m)),
+                                      hop |-> NextHop(n, m.dst), got |-> {}]]
+          /\ UNCHANGED <<rx, q, wait, res, cache, loss, acks, deliv, rets>>
 
-Mcast(n, f, lvl) ==
-  /\ Idle(n) /\ res[n] = "none" /\ f.src = n /\ f.dst = MCAST /\ lvl \in 0..4
-  /\ call' = [call EXCEPT ![n] = f] /\ nw' = nw + 1 /\ popped' = [popped EXCEPT ![n] = FALSE]
-  /\ mlvl' = mlvl \cup {<<f.id, lvl>>}
-  /\ tx' = [tx EXCEPT ![n] = [role |-> "mcast", f |-> f, hop |-> lvl, got |-> {}]]
-  /\ UNCHANGED <<rx, q, wait, res, loss, acks, deliv, rets>>
+Mcast(n, m, lvl) ==
+  /\ Idle(n) /\ res[n] = "none" /\ m.src = n /\ m.dst = MCAST /\ lvl \in 0..4
+  /\ call' = [call EXCEPT ![n] = m] /\ nw' = nw + 1 /\ popped' = [popped EXCEPT ![n] = FALSE]
+  /\ mlvl' = mlvl \cup {<<m.id, lvl>>}
+  /\ tx' = [tx EXCEPT ![n] = [role |-> "mcast", f |-> Frame(m, 1), rest |-> Tail(Frames(m)), hop |-> lvl, got |-> {}]]
+  /\ UNCHANGED <<rx, q, wait, res, cache, loss, acks, deliv, rets, heard>>
 
 \* ---- the radio link --------------------------------------------------------------------------------------
 IsMc(t)  == t.role \in {"mcast", "relay"}
@@ -90,16 +111,19 @@ Arrive(n, m) ==
   /\ tx[n] # NoTx /\ m \in Targets(n) /\ m \notin tx[n].got /\ Len(rx[m]) < FIFO
   /\ rx' = [rx EXCEPT ![m] = Append(@, tx[n].f)]
   /\ tx' = [tx EXCEPT ![n].got = @ \cup {m}]
-  /\ UNCHANGED <<q, wait, res, call, hvars>>
+  /\ heard' = heard \cup {<<m, tx[n].f>>}
+  /\ UNCHANGED <<q, wait, res, call, cache, nw, loss, acks, deliv, rets, popped, mlvl>>
 
 \* The radio's duplicate filter only remembers the PREVIOUS packet (datasheet 7.5.2): when the ACKs of a transmission are
 \* lost and another packet reaches the receiver between two attempts, a later attempt enters the RX FIFO again.
 ReArrive(n, m) ==
   /\ tx[n] # NoTx /\ ~IsMc(tx[n]) /\ m \in tx[n].got /\ Len(rx[m]) < FIFO
   /\ rx' = [rx EXCEPT ![m] = Append(@, tx[n].f)]
-  /\ UNCHANGED <<q, tx, wait, res, call, hvars>>
+  /\ UNCHANGED <<q, tx, wait, res, call, cache, hvars>>
 
-\* what _write() does once _write_to_pipe() has the radio-level result `ok`
+NextFrag(t) == [t EXCEPT !.f = Head(t.rest), !.rest = Tail(t.rest), !.got = {}]    \* the next fragment of the stream
+
+\* what _write() / _write_to_pipe() do once the radio-level result `ok` of the current frame is known
 \* (unicast: ok = an ACK was heard, which implies the packet arrived; multicast: always "sent")
 TxDone(n, ok) ==
   /\ tx[n] # NoTx
@@ -108,24 +132,40 @@ TxDone(n, ok) ==
      /\ (~IsMc(t) /\ ok) => t.got # {}
      /\ loss' = IF ~IsMc(t) /\ ~ok /\ (t.hop \in Tree => Len(rx[t.hop]) < FIFO \/ t.got # {}) THEN loss + 1
                 ELSE IF IsMc(t) /\ t.got # Targets(n) THEN loss + 1 ELSE loss
-     /\ CASE t.role = "origin" ->
-               IF ok /\ IsAckT(f.typ) /\ t.hop # f.dst
-               THEN /\ wait' = [wait EXCEPT ![n] = f] /\ tx' = [tx EXCEPT ![n] = NoTx]
+     /\ CASE t.role = "origin" /\ ok /\ t.rest # <<>> ->       \* stream the next fragment without waiting
+               /\ tx' = [tx EXCEPT ![n] = NextFrag(t)] /\ UNCHANGED <<wait, res, acks>>
+          [] t.role = "origin" /\ ~(ok /\ t.rest # <<>>) ->
+               \* the wait depends on the MESSAGE's type (is_ack_t is taken before the fragment loop)
+               IF ok /\ IsAckT(call[n].typ) /\ t.hop # f.dst
+               THEN /\ wait' = [wait EXCEPT ![n] = call[n]] /\ tx' = [tx EXCEPT ![n] = NoTx]
                     /\ UNCHANGED <<res, acks>>
                ELSE /\ res' = [res EXCEPT ![n] = IF ok THEN "T" ELSE "F"] /\ tx' = [tx EXCEPT ![n] = NoTx]
                     /\ UNCHANGED <<wait, acks>>
           [] t.role = "mcast" ->
-               /\ res' = [res EXCEPT ![n] = "T"] /\ tx' = [tx EXCEPT ![n] = NoTx] /\ UNCHANGED <<wait, acks>>
+               IF t.rest # <<>> THEN /\ tx' = [tx EXCEPT ![n] = NextFrag(t)] /\ UNCHANGED <<wait, res, acks>>
+               ELSE /\ res' = [res EXCEPT ![n] = "T"] /\ tx' = [tx EXCEPT ![n] = NoTx] /\ UNCHANGED <<wait, acks>>
           [] t.role = "fwd" ->
                IF ok /\ IsAckT(f.typ) /\ t.hop = f.dst /\ f.src # n
-               THEN /\ tx' = [tx EXCEPT ![n] = [role |-> "ack", f |-> Ack(f), hop |-> NextHop(n, f.src), got |-> {}]]
+               THEN /\ tx' = [tx EXCEPT ![n] = [role |-> "ack", f |-> Ack(f), rest |-> <<>>, hop |-> NextHop(n, f.src), got |-> {}]]
                     /\ acks' = Append(acks, <<n, f>>) /\ UNCHANGED <<wait, res>>
                ELSE /\ tx' = [tx EXCEPT ![n] = NoTx] /\ UNCHANGED <<wait, res, acks>>
           [] OTHER ->                                   \* "ack", "relay": nothing depends on the result
                /\ tx' = [tx EXCEPT ![n] = NoTx] /\ UNCHANGED <<wait, res, acks>>
-  /\ UNCHANGED <<rx, q, call, nw, deliv, rets, popped, mlvl>>
+  /\ UNCHANGED <<rx, q, call, cache, nw, deliv, rets, popped, mlvl, heard>>
 
 \* ---- _net_update(): one payload out of the RX FIFO ---------------------------------------------------------
+\* FrameQueueFrag.enqueue() as the code has it: <<queue afterwards, cache afterwards>>
+Reassemble(s, c, f) ==
+  IF f.typ = FIRST THEN <<s, f>>
+  ELSE IF c # NoFrame /\ f.dst = c.dst /\ f.src = c.src /\ f.id = c.id
+       THEN IF (f.typ = MORE /\ c.rsv - 1 # f.rsv) \/ (f.typ = LAST /\ c.rsv > 2) THEN <<s, c>>       \* out of sequence
+            ELSE IF f.typ = LAST
+                 THEN <<Enq(s, [f EXCEPT !.typ = f.rsv, !.rsv = 0, !.msg = c.msg \o f.msg]), NoFrame>>
+                 ELSE <<s, [f EXCEPT !.msg = c.msg \o f.msg]>>
+       ELSE <<s, c>>                                                                                  \* no such message
+Accept(n, f) == IF IsFragT(f.typ) THEN Reassemble(q[n], cache[n], f) ELSE <<Enq(q[n], [f EXCEPT !.rsv = 0]), cache[n]>>
+Newly(n, s)  == IF s # q[n] THEN Append(deliv, <<n, s[Len(s)]>>) ELSE deliv
+
 Recv(n) ==
   /\ tx[n] = NoTx /\ res[n] = "none" /\ rx[n] # <<>>
   /\ LET f == Head(rx[n]) IN
@@ -135,50 +175,51 @@ Recv(n) ==
                   THEN /\ res' = [res EXCEPT ![n] = "T"] /\ wait' = [wait EXCEPT ![n] = NoFrame]
                        /\ popped' = [popped EXCEPT ![n] = TRUE]
                   ELSE UNCHANGED <<res, wait, popped>>
-               /\ UNCHANGED <<q, tx, deliv>>
+               /\ UNCHANGED <<q, cache, tx, deliv>>
           [] f.dst = n /\ f.typ # NETWORK_ACK ->
-               /\ q' = [q EXCEPT ![n] = Enq(@, f)]
-               /\ deliv' = IF q'[n] # q[n] THEN Append(deliv, <<n, f>>) ELSE deliv
+               /\ q' = [q EXCEPT ![n] = Accept(n, f)[1]] /\ cache' = [cache EXCEPT ![n] = Accept(n, f)[2]]
+               /\ deliv' = Newly(n, Accept(n, f)[1])
                /\ UNCHANGED <<tx, res, wait, popped>>
           [] f.dst = MCAST ->                           \* heard on the level's shared address
-               /\ q' = [q EXCEPT ![n] = Enq(@, f)]
-               /\ deliv' = IF q'[n] # q[n] THEN Append(deliv, <<n, f>>) ELSE deliv
+               /\ q' = [q EXCEPT ![n] = Accept(n, f)[1]] /\ cache' = [cache EXCEPT ![n] = Accept(n, f)[2]]
+               /\ deliv' = Newly(n, Accept(n, f)[1])
                /\ tx' = IF n \in Relays /\ n \notin NoMc
-                        THEN [tx EXCEPT ![n] = [role |-> "relay", f |-> f, hop |-> Level(n) + 1, got |-> {}]] ELSE tx
+                        THEN [tx EXCEPT ![n] = [role |-> "relay", f |-> f, rest |-> <<>>, hop |-> Level(n) + 1, got |-> {}]] ELSE tx
                /\ UNCHANGED <<res, wait, popped>>
           [] OTHER ->                                   \* pass it along
-               /\ tx' = [tx EXCEPT ![n] = [role |-> "fwd", f |-> f, hop |-> NextHop(n, f.dst), got |-> {}]]
-               /\ UNCHANGED <<q, res, wait, deliv, popped>>
-  /\ UNCHANGED <<call, nw, loss, acks, rets, mlvl>>
+               /\ tx' = [tx EXCEPT ![n] = [role |-> "fwd", f |-> f, rest |-> <<>>, hop |-> NextHop(n, f.dst), got |-> {}]]
+               /\ UNCHANGED <<q, cache, res, wait, deliv, popped>>
+  /\ UNCHANGED <<call, nw, loss, acks, rets, mlvl, heard>>
 
 \* something in the system can still turn into a NETWORK_ACK for n
+IsPartOf(f, m) == f.src = m.src /\ f.id = m.id /\ f.typ # NETWORK_ACK
 Travelling(n) ==
-  \/ \E m \in Tree : \E i \in 1..Len(rx[m]) : rx[m][i] = wait[n] \/ (rx[m][i].typ = NETWORK_ACK /\ rx[m][i].dst = n)
-  \/ \E m \in Tree : tx[m] # NoTx /\ (tx[m].f = wait[n] \/ (tx[m].f.typ = NETWORK_ACK /\ tx[m].f.dst = n))
+  \/ \E m \in Tree : \E i \in 1..Len(rx[m]) : IsPartOf(rx[m][i], wait[n]) \/ (rx[m][i].typ = NETWORK_ACK /\ rx[m][i].dst = n)
+  \/ \E m \in Tree : tx[m] # NoTx /\ (IsPartOf(tx[m].f, wait[n]) \/ (tx[m].f.typ = NETWORK_ACK /\ tx[m].f.dst = n))
 
 Timeout(n) ==
   /\ wait[n] # NoFrame /\ tx[n] = NoTx /\ res[n] = "none"
   /\ FreeTimeout \/ ~Travelling(n)
   /\ res' = [res EXCEPT ![n] = "F"] /\ wait' = [wait EXCEPT ![n] = NoFrame]
-  /\ UNCHANGED <<rx, q, tx, call, hvars>>
+  /\ UNCHANGED <<rx, q, tx, call, cache, hvars>>
 
 Return(n) ==
   /\ res[n] # "none" /\ call[n] # NoFrame
   /\ rets' = rets \cup {[f |-> call[n], res |-> res[n], popped |-> popped[n]]}
   /\ call' = [call EXCEPT ![n] = NoFrame] /\ res' = [res EXCEPT ![n] = "none"]
-  /\ UNCHANGED <<rx, q, tx, wait, nw, loss, acks, deliv, popped, mlvl>>
+  /\ UNCHANGED <<rx, q, tx, wait, cache, nw, loss, acks, deliv, popped, mlvl, heard>>
 
 Deq(n) ==
   /\ q[n] # <<>> /\ q' = [q EXCEPT ![n] = Tail(@)]
-  /\ UNCHANGED <<rx, tx, wait, res, call, hvars>>
+  /\ UNCHANGED <<rx, tx, wait, res, call, cache, hvars>>
 
 \* ---- bounded instance ---------------------------------------------------------------------------------------
-NewFrame(n, d, t) == [src |-> n, dst |-> d, typ |-> t, id |-> nw + 1, msg |-> nw + 1]
+NewMsg(n, d, t, len) == [src |-> n, dst |-> d, typ |-> t, rsv |-> 0, id |-> nw + 1, msg |-> [i \in 1..len |-> 10 * (nw + 1) + i]]
 Next ==
-  \/ \E n \in Tree, d \in Tree, t \in Types :
-        nw < MaxWrites /\ (Concurrent \/ Quiescent) /\ Write(n, NewFrame(n, d, t))
+  \/ \E n \in Tree, d \in Tree, t \in Types, len \in Lens :
+        nw < MaxWrites /\ (Concurrent \/ Quiescent) /\ Write(n, NewMsg(n, d, t, len))
   \/ \E n \in Tree, l \in 0..4, t \in Types :
-        nw < MaxWrites /\ (Concurrent \/ Quiescent) /\ Mcast(n, NewFrame(n, MCAST, t), l)
+        nw < MaxWrites /\ (Concurrent \/ Quiescent) /\ Mcast(n, NewMsg(n, MCAST, t, 1), l)
   \/ \E n \in Tree, m \in Tree : Arrive(n, m)
   \/ \E n \in Tree, m \in Tree : Redeliver /\ MaxLoss > 0 /\ ReArrive(n, m)
   \/ \E n \in Tree : TxDone(n, TRUE)
@@ -199,15 +240,16 @@ AcksFor(f)  == Cardinality({i \in 1..Len(acks) : acks[i][2] = f})
 
 C13_WaitOnlyIfNeeded == \A n \in Tree : wait[n] # NoFrame => IsAckT(wait[n].typ) /\ Routed(wait[n])
 C13_TrueOnlyIfArrived == \A r \in rets : (r.res = "T" /\ IsAckT(r.f.typ) /\ Routed(r.f)) => r.popped
-C13_AckOnce  == \A f \in Written : AcksFor(f) <= 1
+\* one NETWORK_ACK per frame delivered over a last hop (per fragment for fragmented messages), only for acknowledged
+\* frame types on routed paths, only after the frame entered its destination's radio
+C13_AckOnce  == \A i \in 1..Len(acks) : AcksFor(acks[i][2]) <= 1
 C13_AckOnlyIfOwed ==
-  \A i \in 1..Len(acks) : LET f == acks[i][2] IN
-     IsAckT(f.typ) /\ Routed(f) /\ Copies(f.dst, f) + Cardinality({j \in 1..Len(rx[f.dst]) : rx[f.dst][j] = f}) >= 1
+  \A i \in 1..Len(acks) : LET f == acks[i][2] IN IsAckT(f.typ) /\ Routed(f) /\ <<f.dst, f>> \in heard
 C05_AtMostOnce == \A i \in 1..Len(deliv) : LET n == deliv[i][1]  f == deliv[i][2] IN
                      /\ f \in Written /\ Copies(n, f) = 1
                      /\ f.dst # MCAST => n = f.dst
 AllReturned == \A n \in Tree : call[n] = NoFrame
-\* loss-free, one message at a time: delivered exactly once and reported True (C05; C14 for multicasts)
+\* loss-free, one message at a time: delivered exactly once, re-assembled, and reported True (C05; C14 for multicasts)
 C05_Delivered ==
   (loss = 0 /\ Quiescent /\ AllReturned) =>
      \A r \in rets : /\ r.res = "T"
@@ -225,6 +267,11 @@ C14_NoEcho == \A i \in 1..Len(deliv) : deliv[i][2].dst = MCAST => deliv[i][1] # 
 AckAnswersTheAwaited ==
   \A n \in Tree : (wait[n] # NoFrame /\ rx[n] # <<>> /\ Head(rx[n]).typ = NETWORK_ACK /\ Head(rx[n]).dst = n /\ tx[n] = NoTx)
                    => Head(rx[n]).id = wait[n].id
+\* expected to FAIL for fragmented acknowledged messages: the NETWORK_ACK of the FIRST fragment already ends the origin's
+\* wait - True is reported before the last fragment reached the destination (and stays True if that one is lost)
+TrueMeansWholeMessageArrived ==
+  \A r \in rets : (r.res = "T" /\ r.f.dst # MCAST /\ r.f.dst # r.f.src /\ IsAckT(r.f.typ) /\ Routed(r.f))
+                    => <<r.f.dst, Frame(r.f, NFrags(r.f))>> \in heard
 Termination == <>[](AllReturned /\ Quiescent)
 
 View == avars
